@@ -173,7 +173,8 @@ def _extra(cd):
         st.lists(st.sampled_from(_BYTES), max_size=48).map(bytes),
         st.tuples(st.sampled_from(_BYTES), st.integers(0, 256)).map(lambda t: bytes([t[0]]) * t[1]),
     )
-    return st.one_of(st.tuples(st.just("mutate"), edits), st.tuples(st.just("mutate"), edits), st.tuples(st.just("random"), rnd))
+    many = st.tuples(st.just("repeat_tags"), st.sampled_from([2, 3, 50, 150, 300, 700, 1200]))
+    return st.one_of(st.tuples(st.just("mutate"), edits), st.tuples(st.just("mutate"), edits), st.tuples(st.just("random"), rnd), many)
 
 
 def apply_edits(data: bytes, om: OffsetMap, edits) -> bytes:
@@ -228,6 +229,27 @@ def build_input(cd, tree, extra) -> tuple[bytes, bytes | None]:
         valid = ref_encode(cd, tree, om)
     except RefEncodeError:
         return b"", None
+    if mode == "repeat_tags":
+        # the whole top-level tagged section repeated N times (count patched): the same known tags over and over.  Not
+        # conforming (tags must ascend), tolerated by the decoder (last one wins); the work must stay proportional to the size
+        counts = [sp for sp in om.spans if sp[3] == "tagcount"]
+        if not counts or not cd.flexible:
+            return valid, valid
+        s0, e0, _p, _r = max(counts, key=lambda sp: sp[0])
+        section = valid[e0:]
+        k = 0
+        pos = e0
+        # number of entries in the section = the count that is on the wire
+        from ..refcodec import read_uvarint
+
+        try:
+            k, _ = read_uvarint(valid, s0)
+        except Exception:
+            return valid, valid
+        if k == 0 or not section:
+            return valid, valid
+        n_rep = min(arg, max(1, 32768 // len(section)))  # keep the input below ~32 KiB
+        return valid[:s0] + uvarint(k * n_rep) + section * n_rep, valid
     return apply_edits(valid, om, arg), valid
 
 
@@ -310,7 +332,7 @@ SPEC = TreeSpec(
         "of one byte up to 256) or a structure-aware mutation of a reference encoding: 1-4 edits (overwrite, bit flip, "
         "set/clear varint continuation bit, hostile length (-2, -1, 2^24, 2^28, 2^31-1, 2^35-1, overlong varint), insert, delete, "
         "truncate, duplicate) placed via the reference offset map on length prefixes, tag counts, tag numbers, tag sizes, "
-        "nullable markers or values. Oracle: decode returns or raises SerialError/ValueError/OverflowError; Python calls "
+        "nullable markers or values - or the top-level tagged section repeated 2..1200 times with the count patched. Oracle: decode returns or raises SerialError/ValueError/OverflowError; Python calls "
         "(sys.setprofile) <= 400+32*len and read calls <= 16+8*len (counted, the profiler aborts the decode beyond the "
         "bound); half of the inputs are served by a real io.BytesIO subclass that also bounds the bytes handed out through read/read1/getvalue/getbuffer/readinto to 64 + 4*len; for cases with a hostile length, peak traced allocation (tracemalloc) <= 1 MiB + 1 KiB*len; bytes consumed <= len; a returned entity must encode, and decode->encode of that must be idempotent. "
         "Non-trivial = input differs from the valid encoding it was derived from (or is random) and the decoder got past "
